@@ -27,7 +27,7 @@ from graphql.pyutils import Path
 from sim.incremental import Monitor, ProtocolError
 from sim.loop import Sim
 from sim.oracle import Violation
-from sim.tape import Tape, mix
+from sim.tape import ScriptTape, Tape, mix, next_script
 
 from .common import bump, digest_of, pair_hash
 
@@ -922,6 +922,7 @@ def run_unit(seed=None, unit=None, tier="quick", stats=None, prop="C05"):
     n = n_sched if sched_values is None else len(sched_values)
     rendered = None
     shape = None
+    max_ext = 0
     for r in range(n):
         # the spec holds per-run mutable state (library objects), so rebuild it for every run
         pt = Tape(values=ptape.used()) if r else ptape
@@ -958,6 +959,7 @@ def run_unit(seed=None, unit=None, tier="quick", stats=None, prop="C05"):
                  out["world"].pushed_behind_failure)
             bump(stats, "probes", "w2_nesting_rule_checked", out["mon"].nesting_checked)
             bump(stats, "probes", "w2_leftover_tasks", 1 if sim.unfinished_tasks() else 0)
+        max_ext = max(max_ext, sum(1 for e in sim.externals if e.kind != "gate"))
         vs = check_graph(spec, sim, out, prop)
         if out["status"] == "stepcap":
             vs.append(Violation(prop, "livelock", {"world": "W2"}, {"polls": sim.poll}))
@@ -974,6 +976,50 @@ def run_unit(seed=None, unit=None, tier="quick", stats=None, prop="C05"):
             info["sample"] = {"world": "W2", "graph": rendered, "knobs": out["knobs"],
                               "scheduler": sim.mode, "payloads": out["payloads"][:6]}
         sim.close()
+    # event-order sweep: for small graphs walk *all* sequences of "which pending external
+    # (task result, stream item, source step, pull) completes next", one completion per idle
+    # point, under three knob settings; exact odometer over a ScriptTape, bounded; a policy inside
+    # the seeded search, reported separately, not a claim about anything larger
+    if (unit is None and seed is not None and (seed[2] // 2) % 2 == 0 and not violations
+            and 2 <= max_ext <= 7):
+        swept = 0
+        done_cfgs = 0
+        for early_, cap_, pull_ in ((0, 0, 0), (1, 0, 0), (1, 1, 1)):
+            picks = []
+            complete = False
+            while swept < 400:
+                # mode=choice, fire_den=1, immediate delivery; then the W2 knobs
+                st = ScriptTape([0, 4, 0, 0, early_, cap_, pull_], picks)
+                spec = GraphSpec(Tape(values=ptape.used()), big=tier == "thorough")
+                sim, out = run_graph(spec, st, prop)
+                swept += 1
+                bump(stats, "counts", "w2_runs")
+                vs = check_graph(spec, sim, out, prop)
+                if out["status"] == "stepcap":
+                    vs.append(Violation(prop, "livelock", {"world": "W2"}, {"polls": sim.poll}))
+                for v in vs:
+                    v.fingerprint["sweep"] = True
+                    v.detail["sched_index"] = len(sched_tapes)
+                    v.detail["knobs"] = out["knobs"]
+                    v.detail["decisions"] = sim.decision_trace[:60]
+                    v.detail["sweep_picks"] = list(picks)
+                info["pairs"].append(pair_hash(mix(repr(rendered)), sim.digest()))
+                sim.close()
+                if vs:
+                    violations += vs
+                    sched_tapes.append(st)
+                    break
+                picks = next_script(st.trace)
+                if picks is None:
+                    complete = True
+                    break
+            if violations:
+                break
+            if complete:
+                done_cfgs += 1
+        bump(stats, "probes", "w2_event_order_sweep_runs", swept)
+        if done_cfgs == 3:
+            bump(stats, "probes", "w2_event_order_sweeps_completed")
     info["unit"] = {"world": "W2", "plan": ptape.used(), "scheds": [t.used() for t in sched_tapes]}
     info["digest"] = digest_of(digests)
     info["render"] = {"graph": rendered}
